@@ -1,0 +1,124 @@
+//go:build verif
+
+// Contracts for the key-location index (property C06). Comment-only file.
+package local
+
+// Ghost model of a LocationRecordArray ra: a table of records.
+//   rcount(ra)     number of slots
+//   tBlk(ra, s)    block index of the record in slot s (relative to the
+//                  current front of the block list; -1: never written)
+//   tOff, tSize    offset and size of that record's location
+//   tKey, tAtt     its key and attempt number
+//   lo(ra)         validity threshold: a slot is valid iff tBlk >= lo. It only
+//                  grows while a lock is held (quarantine raises it); block
+//                  rotation shifts all indices (lemma L06_release).
+//@ ghost rcount(ref) int
+//@ ghost lo(ref) int
+//@ ghost tBlk(ref, int) int
+//@ ghost tOff(ref, int) int
+//@ ghost tSize(ref, int) int
+//@ ghost tAtt(ref, int) int
+//@ ghost tKey(ref, int) intarr
+// slotOf(klm, key, attempt): the slot getSlot computes (FRAME obligation
+// "deterministic": it depends on nothing but these and on fields of klm that
+// are never assigned after construction).
+//@ ufunc slotOf(ref, intarr, int) int
+
+//@ iface LocationRecordArray.Get
+//@   requires [index] 0 <= index && index < rcount(self)
+//@   modifies lo(self)
+//@   ensures lo(self) >= old(lo(self))
+//@   ensures err == nil ==> tBlk(self, index) >= lo(self)
+//@   ensures err == ErrLocationRecordInvalid ==> tBlk(self, index) < lo(self)
+//@   ensures err == nil ==> result0.RecordKey.Key == tKey(self, index) && result0.RecordKey.Attempt == tAtt(self, index)
+//@         && result0.Location.BlockIndex == tBlk(self, index) && result0.Location.OffsetBytes == tOff(self, index)
+//@         && result0.Location.SizeBytes == tSize(self, index)
+
+//@ iface LocationRecordArray.Put
+//@   requires [index] 0 <= index && index < rcount(self)
+//@   modifies tBlk(self, index), tOff(self, index), tSize(self, index), tAtt(self, index), tKey(self, index)
+//@   ensures err == nil ==> tKey(self, index) == locationRecord.RecordKey.Key && tAtt(self, index) == locationRecord.RecordKey.Attempt
+//@         && tBlk(self, index) == locationRecord.Location.BlockIndex && tOff(self, index) == locationRecord.Location.OffsetBytes
+//@         && tSize(self, index) == locationRecord.Location.SizeBytes
+//@   ensures err != nil ==> unchanged(tBlk(self, index)) && unchanged(tOff(self, index)) && unchanged(tSize(self, index))
+//@         && unchanged(tAtt(self, index)) && unchanged(tKey(self, index))
+
+// older(ra, s1, s2): the record in slot s1 is older than the one in slot s2
+// (Location.IsOlder on the table).
+//@ pure older(ra, s1, s2) = tBlk(ra, s1) < tBlk(ra, s2) || (tBlk(ra, s1) == tBlk(ra, s2) && tOff(ra, s1) < tOff(ra, s2))
+// olderThan(ra, s, blk, off): the record in slot s is older than location (blk, off).
+//@ pure olderThan(ra, s, blk, off) = tBlk(ra, s) < blk || (tBlk(ra, s) == blk && tOff(ra, s) < off)
+
+// INV1: every written slot holds a record that hashes to it, with an attempt
+// number Get can reach.
+//@ pure inv1(ra, klm, n, maxGet) = forall s :: 0 <= s && s < n && tBlk(ra, s) >= 0 ==>
+//@     slotOf(klm, tKey(ra, s), tAtt(ra, s)) == s && 0 <= tAtt(ra, s) && tAtt(ra, s) < maxGet
+// INV2: a valid record at attempt t is preceded, on its probe sequence, only by
+// records that are not older than it (Robin-Hood order by age).
+//@ pure inv2(ra, klm, n) = forall s, a :: 0 <= s && s < n && tBlk(ra, s) >= lo(ra) && 0 <= a && a < tAtt(ra, s) ==>
+//@     !older(ra, slotOf(klm, tKey(ra, s), a), s)
+//@ pure slotRange(klm, n) = forall k intarr, a :: 0 <= slotOf(klm, k, a) && slotOf(klm, k, a) < n
+//@ pure klmWF(klm) = klm.recordsCount >= 1 && klm.recordsCount == rcount(klm.recordArray) && lo(klm.recordArray) >= 0
+//@     && klm.maximumGetAttempts >= 1
+//@ pure klmInv(klm) = klmWF(klm) && slotRange(klm, klm.recordsCount)
+//@     && inv1(klm.recordArray, klm, klm.recordsCount, klm.maximumGetAttempts) && inv2(klm.recordArray, klm, klm.recordsCount)
+
+//@ func (*hashingKeyLocationMap).getSlot
+//@   opt deterministic slotOf(klm, k.Key, k.Attempt)
+//@   requires klm.recordsCount >= 1
+//@   ensures [range] 0 <= result && result < klm.recordsCount
+
+//@ func (*hashingKeyLocationMap).Get
+//@   requires klmInv(klm)
+//@   modifies lo(klm.recordArray)
+//@   ensures [inv] klmInv(klm)
+//@   ensures [sound] err == nil ==> (exists a :: 0 <= a && a < klm.maximumGetAttempts
+//@         && tKey(klm.recordArray, slotOf(klm, key, a)) == key && tAtt(klm.recordArray, slotOf(klm, key, a)) == a
+//@         && tBlk(klm.recordArray, slotOf(klm, key, a)) >= old(lo(klm.recordArray))
+//@         && result0.BlockIndex == tBlk(klm.recordArray, slotOf(klm, key, a))
+//@         && result0.OffsetBytes == tOff(klm.recordArray, slotOf(klm, key, a))
+//@         && result0.SizeBytes == tSize(klm.recordArray, slotOf(klm, key, a))
+//@         && (forall b :: 0 <= b && b < a ==> !(tKey(klm.recordArray, slotOf(klm, key, b)) == key && tAtt(klm.recordArray, slotOf(klm, key, b)) == b)))
+//@   loop 0 invariant klmInv(klm) && recordKey.Key == key && 0 <= recordKey.Attempt && recordKey.Attempt < klm.maximumGetAttempts
+//@   loop 0 invariant lo(klm.recordArray) >= old(lo(klm.recordArray))
+//@   loop 0 invariant forall b :: 0 <= b && b < recordKey.Attempt ==>
+//@         !(tKey(klm.recordArray, slotOf(klm, key, b)) == key && tAtt(klm.recordArray, slotOf(klm, key, b)) == b)
+
+// In-hand record of Put's loop: H says every slot earlier on its probe
+// sequence holds a record that is not older than it.
+//@ pure inHand(ra, klm, k, att, blk, off) = forall a :: 0 <= a && a < att ==> !olderThan(ra, slotOf(klm, k, a), blk, off)
+
+//@ func (*hashingKeyLocationMap).Put
+//@   requires klmInv(klm) && location.BlockIndex >= 0
+//@   modifies lo(klm.recordArray), tBlk, tOff, tSize, tAtt, tKey
+//@   ensures [inv] klmInv(klm)
+//@   ensures [dropped-not-newer] !(location.BlockIndex < record.Location.BlockIndex
+//@         || (location.BlockIndex == record.Location.BlockIndex && location.OffsetBytes < record.Location.OffsetBytes))
+//@   loop 0 invariant klmInv(klm) && iteration >= 1
+//@   loop 0 invariant 0 <= record.RecordKey.Attempt && record.RecordKey.Attempt < klm.maximumGetAttempts && record.Location.BlockIndex >= 0
+//@   loop 0 invariant inHand(klm.recordArray, klm, record.RecordKey.Key, record.RecordKey.Attempt, record.Location.BlockIndex, record.Location.OffsetBytes)
+//@   loop 0 invariant !(location.BlockIndex < record.Location.BlockIndex || (location.BlockIndex == record.Location.BlockIndex && location.OffsetBytes < record.Location.OffsetBytes))
+
+// ---- lemmas over the table invariants
+// What Get finds (first slot on the key's probe sequence that holds the key)
+// is not older than any other valid record for that key: "the newest location
+// stored for exactly that key".
+//@ lemma L06_newest(ra int, klm int, n int, maxGet int, key intarr, a int, s2 int)
+//@   requires inv1(ra, klm, n, maxGet) && inv2(ra, klm, n) && lo(ra) >= 0
+//@   requires forall k intarr, b :: 0 <= slotOf(klm, k, b) && slotOf(klm, k, b) < n
+//@   requires 0 <= a && a < maxGet && tKey(ra, slotOf(klm, key, a)) == key && tAtt(ra, slotOf(klm, key, a)) == a
+//@   requires forall b :: 0 <= b && b < a ==> !(tKey(ra, slotOf(klm, key, b)) == key && tAtt(ra, slotOf(klm, key, b)) == b)
+//@   requires 0 <= s2 && s2 < n && tBlk(ra, s2) >= lo(ra) && tKey(ra, s2) == key
+//@   ensures [newest] !older(ra, slotOf(klm, key, a), s2)
+// Raising the validity threshold (block release, quarantine) keeps INV2.
+//@ lemma L06_release(ra int, klm int, n int, lo2 int)
+//@   requires inv2(ra, klm, n) && lo2 >= lo(ra)
+//@   ensures [inv2-monotone] forall s, a :: 0 <= s && s < n && tBlk(ra, s) >= lo2 && 0 <= a && a < tAtt(ra, s) ==>
+//@         !older(ra, slotOf(klm, tKey(ra, s), a), s)
+// Canary: without INV2 the newest-record lemma must not be provable.
+//@ lemma L06_canary(ra int, klm int, n int, maxGet int, key intarr, a int, s2 int)
+//@   requires inv1(ra, klm, n, maxGet) && lo(ra) >= 0
+//@   requires 0 <= a && a < maxGet && tKey(ra, slotOf(klm, key, a)) == key && tAtt(ra, slotOf(klm, key, a)) == a
+//@   requires forall b :: 0 <= b && b < a ==> !(tKey(ra, slotOf(klm, key, b)) == key && tAtt(ra, slotOf(klm, key, b)) == b)
+//@   requires 0 <= s2 && s2 < n && tBlk(ra, s2) >= lo(ra) && tKey(ra, s2) == key
+//@   ensures [newest] !older(ra, slotOf(klm, key, a), s2)
